@@ -521,9 +521,24 @@ class Exec:
                 and self.cur_func.key == self.top.key:
             # a dictionary filled in a loop of symbolic length: unbounded symbolic key set (declared by the contract: key sort)
             from .dicts import SymMap
-            v = SymMap.empty(st.targets[0].id, {"int": z3.IntSort()}[self.top.symbolic_dicts[st.targets[0].id]])
+            v = SymMap.empty(st.targets[0].id, self._sym_sort(self.top.symbolic_dicts[st.targets[0].id]))
+        if type(v).__name__ == "PySet" and not v.items and len(st.targets) == 1 and isinstance(st.targets[0], ast.Name) and self.top is not None \
+                and st.targets[0].id in getattr(self.top, "symbolic_sets", {}) and self.cur_func is not None and self.cur_func.key == self.top.key:
+            # a set filled in a loop of symbolic length (declared by the contract: element sort)
+            from .dicts import SymSet
+            v = SymSet.empty(st.targets[0].id, self._sym_sort(self.top.symbolic_sets[st.targets[0].id]))
         for t in st.targets:
             self.assign(t, v, fr)
+
+    def _sym_sort(self, kind):
+        if callable(kind):
+            kind = kind(self)
+        if kind == "int":
+            return z3.IntSort()
+        if kind == "key":
+            from .sparsemodel import Key
+            return Key
+        raise Unsupported("key kind %r" % (kind,))
 
     def st_AnnAssign(self, st, fr):
         if st.value is not None:
@@ -936,7 +951,11 @@ class Exec:
                 m_.cell.term, m_.cell.nan = sn_.cell.term, sn_.cell.nan
                 self.owner_frame(n, fr).locals[n] = old
                 continue
-            if type(old).__name__ == "SymMap" and "$live_" + n in pre:
+            if type(old).__name__ == "SymSet" and "$live_" + n in pre:
+                live = pre["$live_" + n]
+                live.member, live.count = old.member, old.count
+                self.owner_frame(n, fr).locals[n] = live
+            elif type(old).__name__ == "SymMap" and "$live_" + n in pre:
                 live = pre["$live_" + n]
                 live.member, live.value, live.count = old.member, old.value, old.count
                 self.owner_frame(n, fr).locals[n] = live
@@ -991,6 +1010,11 @@ class Exec:
                     self.assume(d >= 0)
                 return NdArr.fresh(n, dims, cur.kind, nan=cur.cell.nan is not None)
             return self._havoc_cell(cur, n)
+        if type(cur).__name__ == "SymSet":
+            cur.member = z3.Const(fresh_name(n + "_in"), cur.member.sort())
+            cur.count = self.int(n + "_count")
+            self.assume(cur.count >= 0)
+            return cur
         if type(cur).__name__ == "SymMap":
             cur.member = z3.Const(fresh_name(n + "_in"), cur.member.sort())
             cur.value = z3.Const(fresh_name(n + "_val"), cur.value.sort())
@@ -1031,6 +1055,10 @@ class Exec:
             return tuple(self.havoc_value("%s_%d" % (n, i), c, True) for i, c in enumerate(cur))
         if isinstance(cur, Opaque):
             return Opaque(z3.Const(fresh_name(n), cur.term.sort()), cur.tag)
+        if rebind and isinstance(cur, Obj):
+            # the name is re-bound in the loop (a loop target, a temporary) and holds an object from before the loop: what it holds at the
+            # start of an arbitrary iteration is unknown - reading it before it is assigned again is refused (Unbound)
+            return Unbound(n)
         raise Unsupported("havoc of %s (%s)" % (n, type(cur).__name__))
 
     def _havoc_cell(self, arr, n):
@@ -1976,7 +2004,7 @@ def snapshot_env(fr):
         for k, v in f.locals.items():
             if k in snap:
                 continue
-            if isinstance(v, (NdArr, SList)) or type(v).__name__ == "SymMap":
+            if isinstance(v, (NdArr, SList)) or type(v).__name__ in ("SymMap", "SymSet"):
                 snap[k] = v.snapshot()
                 snap["$live_" + k] = v
             elif isinstance(v, list):
